@@ -2231,7 +2231,7 @@ static void remove_sent (object_t * ob, object_t * user) {
 static int find_line (const char *p, const program_t * progp, char **ret_file, int *ret_line) {
   int offset;
   unsigned char *lns;
-  short abs_line;
+  unsigned short abs_line;	/* stored as 16 bits by switch_to_line(); lines above 32767 must not turn negative */
   int file_idx;
 
   *ret_file = "";
